@@ -112,7 +112,7 @@ func vfRoaringReadFrom(rb *roaring.Bitmap, reader io.Reader, cookieHeader ...byt
 // or rejected with an error — never a panic, never an allocation out of
 // proportion to the input.
 //
-// vf:harness property=C12 cases=L:0..13;chunk:3,16 cases.thorough=L:0..16;chunk:1,3,11,16 maxpaths=400000
+// vf:harness property=C12 cases=L:0..13;chunk:3,16 cases.thorough=L:0..16;chunk:1,3,11,16 maxpaths=400000 diff=on
 // vf:replace io.CopyN vfCopyN
 // vf:replace hash/crc32.Update vfChecksumUpdate
 // vf:replace (*github.com/RoaringBitmap/roaring.Bitmap).ReadFrom vfRoaringReadFrom
@@ -135,7 +135,7 @@ func VF_C12_DecodeTotal(L int, chunk int) {
 // trailer matches the bytes before it, the closer ran exactly once and every
 // named segment was loaded.
 //
-// vf:harness property=C12 cases=L:0..9;crc:0..1 cases.thorough=L:0..13;crc:0..1 maxpaths=400000
+// vf:harness property=C12 cases=L:0..9;crc:0..1 cases.thorough=L:0..13;crc:0..1 maxpaths=400000 diff=on
 // vf:replace bufio.NewReader vfSmallBufReader
 // vf:replace io.CopyN vfCopyN
 // vf:replace hash/crc32.Update vfChecksumUpdate
@@ -223,7 +223,7 @@ func (s *vfTypedSegment) Version() uint32 { return s.ver }
 // list of segment ids, types, versions and deleted sets; the trailer is the
 // CRC-32 of everything before it.
 //
-// vf:harness property=C12 cases=nseg:0..2;del:0..2;tlen:3,7;chunk:3,16 cases.thorough=nseg:0..3;del:0..3;tlen:0,3,7,12;chunk:1,3,11,16
+// vf:harness property=C12 cases=nseg:0..2;del:0..2;tlen:3,7;chunk:3,16 cases.thorough=nseg:0..3;del:0..3;tlen:0,3,7,12;chunk:1,3,11,16 diff=on
 // vf:replace io.CopyN vfCopyN
 // vf:replace hash/crc32.Update vfChecksumUpdate
 // vf:replace (*github.com/RoaringBitmap/roaring.Bitmap).ReadFrom vfRoaringReadFrom
